@@ -15,7 +15,7 @@ T = [
  ("c04-1", "C04", "keep-last-child rule rewritten as skipped_children + 1 == K", "pruned composition with a from_poly(.., None) operand grafted on a non-root terminal where the operand's path is infeasible", ["C04", "C03"], ""),
  ("c04-2", "C04", "root shortcut of is_edge_feasible tests the child instead of the parent", "pruned composition / tree operator onto a root terminal that is a non-zero constant", ["C04", "C03"], ""),
  ("c05-1", "C05", "phase_two caches the rejected LP point instead of the repaired one", "the witness-repair branch (solver point outside the polytope)", ["C05", "C11"], "missed by C05 at first (minilp never returns a rejected point on the dyadic alphabets): C05 now drives the repair branch with every single witness fault at every LP call"),
- ("c05-2", "C05", "mirror_points accepts normalised distances >= -1e-8", "start point / parent witness less than 1e-8 outside a row with norm > 1", ["C05", "C11"], ""),
+ ("c05-2", "C05", "mirror_points accepts normalised distances >= -1e-8", "start point / parent witness less than 1e-8 outside a row with norm > 1", ["C05"], "C11 reported it too while its programs were every k-th history of the thorough C03 space; with the present stride through the quick space only C05 does"),
  ("c06-1", "C06", "depth-1 nodes skip the LP and get a closed-form witness", "root predicate with an all-zero normal and non-zero bias (NaN witness, empty child cached as feasible)", ["C06", "C01", "C04"], "at first the engine itself panicked on the NaN witness (exit 101, no verdict): the snapshot reader now records non-finite stored values and every well-formedness / cache check reports them"),
  ("c06-2", "C06", "grafted nodes copy the right operand's cached feasibility state", "a right operand that was itself eliminated before the composition", ["C06", "C05", "C04"], "missed at first: right operands were always fresh; operands 'after their own infeasible_elimination' were added to the shared alphabet"),
  ("c07-1", "C07", "keep-last-child rule tests label+1 == K", "tree arithmetic with a partial right operand whose only child hangs on label 0", ["C07"], ""),
@@ -87,20 +87,62 @@ T2 = [
  ("r2-c19-2", "C19", "write_predicate prints only row 0", "K >= 3 tree with a two-row predicate through Display", ["C19"], "missed at first: only binary trees were rendered; K=4 trees were added to the Display check"),
 ]
 
+T3 = [
+ ("r3-c01-1", "C01", "evaluate_decision compares against 1e-8 instead of 0", "an input less than 1e-8 beyond a breakpoint", ["C01", "C17"], ""),
+ ("r3-c01-2", "C01", "afftree_from_layers_generic normalises the rows of the precondition", "a precondition row that is not of unit length and an input on or next to that facet", ["C01"], ""),
+ ("r3-c02-1", "C02", "update_decision skips the -A c correction when the entries of the terminal's offset sum to 0.0", "a terminal of f whose offset vector is non-zero but cancels in the sum, e.g. (1,-1), above a decision of g with A c != 0", ["C02"], "missed at first: no terminal of f had a cancelling offset vector; such terminals were added for the intermediate dimension 2"),
+ ("r3-c02-2", "C02", "compose::<false, true> passes the pruning schema", "the progress-display variant without pruning and an infeasible branch of g below a terminal of f (or K = 4)", ["C02", "C04"], "missed at first: only compose::<_, false> was driven; the VERBOSE twin is now run next to the silent variant (C02: all pairs of trees with <= 3 nodes; C03: first operation; C04: first two operations) and must leave the identical arena"),
+ ("r3-c03-1", "C03", "is_edge_feasible treats a predicate with an all-zero matrix as infeasible when bias > 0", "a grafted predicate 0 <= b with b > 0 (constant terminal above a decision)", ["C03", "C11"], ""),
+ ("r3-c03-2", "C03", "infeasible_elimination tightens the path polytope by 1e-6 without normalising", "rows of norm about 1e-7 whose region is fat", ["C03", "C11"], ""),
+ ("r3-c04-1", "C04", "lift_predicate copies the normal vectors when the terminal matrix has a unit diagonal, square or not", "a non-square terminal whose matrix is a rectangular identity", ["C04", "C03"], "C03 crashed (exit 101) instead of reporting: the unpruned reference track was itself malformed and the region explorer unwrapped its evaluation error; it now reports a RefError mismatch"),
+ ("r3-c04-2", "C04", "the kept last child of a pruned decision is not pushed on the work stack", "a pruned composition that keeps an infeasible last child above further terminals", ["C04", "C03"], ""),
+ ("r3-c05-1", "C05", "phase_inh lets a child inherit all witnesses when the new predicate has a zero direction", "a predicate with an all-zero matrix and negative bias below a witness", ["C05", "C11"], ""),
+ ("r3-c05-2", "C05", "phase_inh hands down the parent's whole witness list when one point fits", "a cache holding at least two witnesses that a later predicate separates; the library only produces single-witness caches, a user can store several in the public state field", ["C05"], "missed at first: every history started from a constructor result; constructor results whose root cache holds 2-4 sample inputs (valid witnesses of the root) were added as non-initial states"),
+ ("r3-c06-1", "C06", "phase_two drops zero rows before the LP", "a path with a row 0 <= b, b < 0, that makes the region empty", ["C06"], ""),
+ ("r3-c06-2", "C06", "the LP is run on the polytope tightened by 1e-6", "a region thinner than 1e-6 but wider than the solver tolerance", ["C06", "C03"], ""),
+ ("r3-c07-1", "C07", "the grafted copy of the right operand is attached at the running position instead of the label", "a partial right operand (missing label-0 child)", ["C07", "C02"], ""),
+ ("r3-c07-2", "C07", "the lifted operators normalise the decisions they copy from the right operand", "a decision of the right operand whose row is not of unit length and whose scaled copy is not exact in f64, and an input on that hyperplane", ["C07"], "missed at first: every decision of the right operand normalised exactly ((1,1)/sqrt 2 scales row and bias alike); rows 3x <= 1 and x+2y <= 1 replaced two of them"),
+ ("r3-c08-1", "C08", "reduce treats a decision with a single label-0 child as 'all children identical'", "a partial decision whose only child hangs on label 0", ["C08"], ""),
+ ("r3-c08-2", "C08", "sibling terminals are compared with relative_eq instead of ==", "sibling terminals differing by at most f64::EPSILON absolutely or one unit in the last place", ["C08"], "missed at first: terminals differed by O(1); a family with biases 0 / 2^-60, coefficients 0 / 2^-60 and biases 1 / 1+2^-52 was added"),
+ ("r3-c09-1", "C09", "PolyhedraGen::next pushes a predicate only if it differs from the top of its stack", "a child whose predicate equals its parent's (coincident predicates)", ["C09", "C13"], ""),
+ ("r3-c09-2", "C09", "DfsPre::new and Bfs::new start with last_push = 1", "skip_subtree called before the first next()", ["C09", "C13"], "missed at first: skips were only placed after returned items; 'before the first next()' (once, twice, combined with every single later position) is now a skip position of the node traversals"),
+ ("r3-c10-1", "C10", "chebyshev_center drops the row -r <= 0", "an empty polytope (negative radius is then optimal)", ["C10"], ""),
+ ("r3-c10-2", "C10", "as_linprog bounds variables of all-zero columns to (0,0)", "an objective with a non-zero coefficient on an unconstrained coordinate", ["C10", "C15"], ""),
+ ("r3-c11-1", "C11", "the witness check of phase_two is rewritten with f64::min, which drops NaN", "an 'optimal' point with NaN coordinates", ["C11", "C05"], "missed at first: the displaced points were all finite; FarOff(NaN) was added to the single-fault plans (FarOff(inf) was tried and withdrawn, see DESIGN.md)"),
+ ("r3-c11-2", "C11", "is_edge_feasible drops an edge whose LP witness it cannot verify", "a displaced witness at an LP call of a pruned composition whose region has no interior, or a far-off witness", ["C11"], ""),
+ ("r3-c12-1", "C12", "add_child_node inserts first and looks the parent up afterwards", "an invalid parent index equal to the slab's next vacant key", ["C12"], ""),
+ ("r3-c12-2", "C12", "merge_child_with_parent computes the slot in the grandparent as 0/1", "K >= 3 and a merged node hanging on label >= 2", ["C12"], ""),
+ ("r3-c13-1", "C13", "the upper size_hint is tightened by the start index", "an arena with holes or re-used indices and a traversal started below the root", ["C13"], ""),
+ ("r3-c13-2", "C13", "skip_subtree truncates the stack and no longer resets last_push", "two skip_subtree calls in a row", ["C13", "C09"], ""),
+ ("r3-c14-1", "C14", "intersection_n copies the operands' raw buffers", "a column-major operand of at least 2x2", ["C14"], "missed at first: C14 built every polytope row-major; every 2nd system with a matrix of at least 2x2 is now run once more with column-major polytopes, second operands and maps"),
+ ("r3-c14-2", "C14", "apply_pre short-cuts maps with an identity matrix to translate(+d)", "a pure translation with non-zero offset", ["C14"], "missed at first: no map of the apply_pre alphabet was a pure translation; translations, the identity, a scaling and a rectangular identity were added"),
+ ("r3-c15-1", "C15", "remove_duplicate_rows compares the biases of negligible rows with relative_eq", "two rows with identical negligible or zero coefficients whose biases differ by less than 2.2e-16, the tighter one later", ["C15"], "missed at first: tiny rows had biases of ordinary size; rows that are tiny as a whole (coefficients and biases +-2^-60) were added"),
+ ("r3-c15-2", "C15", "remove_redundant_row_constraints returns the canonical empty set for a polytope without rows", "a polytope with zero rows, e.g. the result of a previous clean-up", ["C15"], "missed at first: no system without rows and no sequences of clean-up calls; both were added (every result of a first call is an input of every second call)"),
+ ("r3-c16-1", "C16", "compose returns the inner map when the outer matrix is the identity, ignoring the outer offset", "an outer map that is a pure translation", ["C16"], ""),
+ ("r3-c16-2", "C16", "remove_zero_columns removes a column and still advances the index", "two adjacent all-zero columns", ["C16"], ""),
+ ("r3-c17-1", "C17", "evaluate_decision compares against f64::EPSILON instead of 0", "an input one unit in the last place beyond a breakpoint of magnitude below 2", ["C17", "C01"], "missed at first: the nearest probes were 2^-40 beside a hyperplane; probes at the neighbouring floating-point numbers were added for axis-parallel hyperplanes (where the sign of the real residual is provably exact)"),
+ ("r3-c17-2", "C17", "from_poly normalises the rows of the polytope", "a row that is neither axis-parallel nor of unit length and a point on that facet", ["C17", "C01"], "missed by C17 at first (C01 caught it): every row of the from_poly alphabet normalised exactly; rows 3x <= 1, 3x+4y <= 5 and -x-2y <= 1 were added"),
+ ("r3-c18-1", "C18", "a rejected Architecture::linear still overwrites current_shape", "a rejected layer whose output width differs from the current width, followed by further calls", ["C18"], ""),
+ ("r3-c18-2", "C18", "extract_range takes the input shape of the range from its first operator", "a range starting exactly at an argmax / class-characterisation operator", ["C18"], ""),
+ ("r3-c19-1", "C19", "DOT node statements are numbered by position instead of arena index", "an arena with a hole before a live node", ["C19"], ""),
+ ("r3-c19-2", "C19", "row skipping stops at the first skipped row", "a skip_rows window with a finite upper bound below the row count", ["C19"], ""),
+]
+
 extra = {}
 ep = os.path.join(ROOT, "tools", "seed_table_extra.json")
 if os.path.exists(ep):
     extra = json.load(open(ep))
 
 rows = []
-for sid, prop, descr, needs, caught, note in T + T2:
+for sid, prop, descr, needs, caught, note in T + T2 + T3:
     if sid in extra:
         e = extra[sid]
         descr, needs, caught, note = e["descr"], e["needs"], e["caught"], e.get("note", "")
-    r2 = sid.startswith("r2-")
+    rnd = int(sid[1]) if sid.startswith("r") else 1
+    r2 = rnd >= 2
     base = sid[3:] if r2 else sid
     nn, k = base[1:3], base[4]
-    src = ("/tmp/seed2_c%s" if r2 else "/tmp/seed_c%s") % nn
+    src = "/tmp/seed%s_c%s" % ("" if rnd == 1 else str(rnd), nn)
     dst = os.path.join(ROOT, "seeded", sid)
     if not descr:
         continue
@@ -128,10 +170,10 @@ for sid, prop, descr, needs, caught, note in T + T2:
         "property": prop,
         "change": descr,
         "needs_to_manifest": needs,
-        "origin": ("round 2: " if r2 else "round 1: ") + "fresh sub-agent given only the property text" + (" (plus one-line descriptions of the round-1 changes to avoid duplicates)" if r2 else "") + " and a scratch worktree; nothing from /verif",
+        "origin": ("round %d: " % rnd) + "fresh sub-agent given only the property text" + (" (plus one-line descriptions of the earlier rounds' changes to avoid duplicates)" if r2 else "") + " and a scratch worktree; nothing from /verif",
         "confirmation": conf,
         "what_was_run": [
-            "tools/confirm_seed.sh %s %s" % (nn, k) + (" 2" if r2 else "") + "  (scratch worktree: git apply patch; cargo test --offline --no-fail-fast -> whole suite passes; demo as tests/seed_demo.rs fails with the patch, passes after git checkout)",
+            "tools/confirm_seed.sh %s %s" % (nn, k) + ((" %d" % rnd) if r2 else "") + "  (scratch worktree: git apply patch; cargo test --offline --no-fail-fast -> whole suite passes; demo as tests/seed_demo.rs fails with the patch, passes after git checkout)",
             "tools/try_seed.sh seeded/%s/patch.diff quick %s  (git -C /repo apply; ./check <ID> quick; git -C /repo checkout -- .)" % (sid, " ".join(caught)),
         ],
         "caught_by_quick": caught,
